@@ -142,6 +142,17 @@ func checkC05(c *Ctx) {
 	// ---- ReorderEdges / Reroot
 	c.reorderRules()
 
+	// ---- the sort used for display writes every slot back
+	c.Decides("WRITEBACK-ALL: sortNeighbors writes the sorted neighbours and branches back into every slot (its write-back loop starts at slot 0 and runs to the end)")
+	if fi := c.Func("tree", "Tree", "sortNeighbors"); fi != nil {
+		c.writebackAll("WRITEBACK-ALL", fi, "re-ordering the neighbours of a node keeps every neighbour and its branch")
+	}
+	c.Floor("WRITEBACK-ALL", 1)
+
+	c.Decides("ROOT-LIVE: a function of package tree that installs a node given by its caller as the root (Reroot, reroot_nocheck) calls nothing that can delete nodes (reaches delNode) before doing so")
+	c.rootLive("ROOT-LIVE", c.AllFuncs("tree"), "the tree is re-rooted on the requested node and keeps all its tips")
+	c.Floor("ROOT-LIVE", 2)
+
 	// ---- PAIR on the functions of this property
 	only := map[string]bool{"RotateNeighbors": true, "sortNeighbors": true, "RerootOutGroup": true, "RerootMidPoint": true, "UnRoot": true}
 	c.checkPair("PAIR", only)
